@@ -1,14 +1,11 @@
 #![no_main]
 use libfuzzer_sys::fuzz_target;
-use swiftmt_verif::lib_api::FIELDS;
-use swiftmt_verif::props::c07::TotalCase;
 mod common;
 
+// input decoding: swiftmt_verif::props::c07::decode_fuzz_input("fz_field", bytes)
 fuzz_target!(|data: &[u8]| {
-    if data.is_empty() {
-        return;
+    let _ = common::ctx();
+    if let Some(case) = swiftmt_verif::props::c07::decode_fuzz_input("fz_field", data) {
+        common::judge(case);
     }
-    let f = FIELDS[data[0] as usize % FIELDS.len()].name;
-    let text = String::from_utf8_lossy(&data[1..]).to_string();
-    common::judge(TotalCase { kind: "field".into(), target: f.to_string(), input: text, mutation: "libfuzzer".into() });
 });
